@@ -103,7 +103,17 @@ func c04Tree(c *Ctx, w WLCase, lim explore.Limits, prefix string, sample bool) {
 			c.Violate(prefix+"impossible-output", fmt.Sprintf("recipe %s returned %s (probability >= %s), which the recipe cannot produce", w.String(), key, ratString(m)), det)
 			return
 		}
+	}
+	for key, want := range ref {
+		m := res.Mass[key]
+		if m == nil {
+			m = new(big.Rat)
+		}
 		hi := new(big.Rat).Add(m, res.Unresolved)
+		if m.Sign() == 0 && hi.Cmp(want) < 0 {
+			c.Violate(prefix+"output-unreachable", fmt.Sprintf("recipe %s never returns %s (unresolved mass %s), which should have probability %s", w.String(), key, ratString(res.Unresolved), ratString(want)), det)
+			return
+		}
 		if m.Cmp(want) > 0 || hi.Cmp(want) < 0 {
 			class := "distribution-differs"
 			switch {
@@ -112,14 +122,6 @@ func c04Tree(c *Ctx, w WLCase, lim explore.Limits, prefix string, sample bool) {
 			}
 			c.Violate(prefix+class, fmt.Sprintf("recipe %s: P(%s) = %s (+ unresolved %s) but the product of uniform, independent choices gives %s", w.String(), key, ratString(m), ratString(res.Unresolved), ratString(want)), det)
 			return
-		}
-	}
-	if res.Complete {
-		for key, want := range ref {
-			if res.Mass[key] == nil {
-				c.Violate(prefix+"output-unreachable", fmt.Sprintf("recipe %s never returns %s, which should have probability %s", w.String(), key, ratString(want)), det)
-				return
-			}
 		}
 	}
 	if sample {
